@@ -541,6 +541,24 @@ def rule_r5(ctx: Ctx) -> None:
         tp = sorted(str(d._file_path if hasattr(d, "_file_path") else d.file_path) for d in (crf[0][0] if crf else []))
         ctx.count()
         ctx.check(res == ["DIRECT-TYPES"] and tp == ["/w/ns/A.1.0.dsdl", "/w/ns/sub/B.1.0.dsdl"], rn.short, "read_namespace(alias of ns) lists %s" % tp, "the root namespace directory is resolved before use", rn.where())
+        # the caller's directory list is the caller's: reading does not change it, and a second read with the same list (and
+        # another root) is given exactly the directories the caller listed
+        hook3 = R._hook(ctx, mod, log, record=["_complete_read_function"], results={
+            "dsdl_file_sort": lambda xs: list(xs), "file_sort": lambda xs: list(xs),
+            "_complete_read_function": lambda *a, **k: Sym(direct=["DIRECT-TYPES"], transitive=["TRANSITIVE-TYPES"]),
+        })
+        mine = [APath("/w/other")]
+        seen = []
+        for root in ("/w/ns", "/w/other"):
+            del log[:]
+            try:
+                call_fn(ctx, rn, [APath(root), mine], hook=hook3, keep=tuple(mod.functions))
+            except (Raised, Unfoldable) as ex:
+                raise AnalysisError("%s: cannot evaluate with the real argument normalisation: %s" % (rn.short, ex))
+            crf2 = [a for name, a, k in log if name == "_complete_read_function"]
+            seen.append(sorted(str(x) for x in (crf2[0][1] if crf2 and len(crf2[0]) > 1 else [])))
+            ctx.count()
+        ctx.check([str(x) for x in mine] == ["/w/other"] and seen == [["/w/ns", "/w/other"], ["/w/other"]], rn.short, "the caller's lookup list after two reads: %s; directories searched: %s" % ([str(x) for x in mine], seen), "the result does not depend on earlier calls: the directory list passed by the caller is not modified and each read searches the root plus exactly the directories listed", rn.where())
         # a definition built from an alias spelling has the real paths
         dd = ctx.cls("_dsdl_definition.DSDLDefinition")
         try:
